@@ -16,6 +16,7 @@ type deferSite struct {
 	args  []Value
 	argExprs []ast.Expr
 	fn    *types.Func
+	lit   *ast.FuncLit // a deferred parameterless function literal (runs inline, sees the variables it captures)
 	pkg   *Pkg
 }
 
